@@ -231,8 +231,22 @@ class UidOracle(Oracle):
             root_src, root_dst = info["src"], info["dst"]
             dz = world.h[info["dh"]].model.zombies.get(root_src)
             if root_src not in info["in_use"] and root_dst != root_src and not (dz and not dz.get("collected")):
-                raise Violation("C06", "copy_uid_not_kept", f"identifier {root_src} was free in the target workspace but the copy got {root_dst}",
-                                {"ws": "other", "level": "root"})
+                # (the bookkeeping of what has been collected is the harness's estimate; the registry itself is asked whether a
+                #  removed entity with that identifier is in fact still alive -- then the identifier was not free)
+                import uuid as _uuid
+
+                still = world.h[info["dh"]].ws.get_entity(_uuid.UUID(root_src.strip("{}")))[0] if dz else None
+                alive = still is not None
+                del still
+                if getattr(world.h[info["dh"]].model, "removed_entry", {}).get(root_src) == "parent":
+                    # removed through its parent: such an entity stays registered until it is collected, and with collections placed
+                    # inside calls the harness cannot tell whether that happened before the copy routine asked for the identifier
+                    world.sim.probe("identifier_of_parent_removed_entity")
+                    alive = True
+                if not alive:
+                    raise Violation("C06", "copy_uid_not_kept", f"identifier {root_src} was free in the target workspace but the copy got {root_dst}",
+                                    {"ws": "other", "level": "root"})
+                world.sim.probe("removed_entity_still_registered")
             if info["children"]:
                 dzombies = world.h[info["dh"]].model.zombies
                 pg_ids = {p for u in src_model.subtree(info["src"]) for p in src_model.recs[u].get("pgs", {})}
@@ -243,6 +257,8 @@ class UidOracle(Oracle):
                         continue   # a removed, not yet collected owner may still hold the identifier
                     if any(not z.get("collected") and u in ((z.get("rec") or {}).get("pgs") or {}) for z in dzombies.values()):
                         continue   # ... and so may the property groups of such an owner
+                    if getattr(world.h[info["dh"]].model, "removed_entry", {}).get(u) == "parent":
+                        continue   # an entity removed through its parent holds its identifier until collected (not exactly known when)
                     if u in pg_ids or u in src_model.recs:
                         # every copied child / property group keeps its identifier when free
                         copied = u in pg_ids or self._was_copied(src_model, u, info)
